@@ -460,7 +460,12 @@ fn run_matrix(ctx: &mut Ctx, _rng: &mut Rng, index: u64) {
 
 fn run_garbage(ctx: &mut Ctx, rng: &mut Rng, index: u64) {
     let cfg = Config::basic();
-    let reply: Vec<u8> = match index % 6 {
+    let reply: Vec<u8> = match index % 7 {
+        // a status token that is not exactly three digits is not a status code (no agreement)
+        6 => {
+            let tok: &[u8] = *rng.pick(&[&b"+200"[..], b"0200", b"2000", b"20", b"2xx", b"200.0", b"-200", b"00200", b"2 00"]);
+            [b"HTTP/1.1 ".as_slice(), tok, b" Connection established\r\nProxy-Agent: x\r\n\r\n"].concat()
+        }
         0 => {
             let n = rng.range(0, 300);
             rng.bytes(n)
@@ -478,7 +483,7 @@ fn run_garbage(ctx: &mut Ctx, rng: &mut Rng, index: u64) {
         }
     };
     let descr = |x: &str| format!("{x}; garbage CONNECT reply {}", show(&reply));
-    let mut steps = seg(rng, index / 6, &reply);
+    let mut steps = seg(rng, index / 7, &reply);
     steps.push(Step::Eof);
     ctx.count("garbage_replies", 1);
     let run = match run_scripted(&cfg, steps) {
